@@ -10,8 +10,8 @@ from cref import INT, UINT, LONG, ULONG, CHAR, UCHAR, SHORT, USHORT, BOOL, conv,
 LITS = {
     INT: ["0", "1", "2", "7", "31", "32", "255", "65536", "2147483647", "(-1)", "(-2147483647 - 1)", "(-128)", "0x7fffffff", "0x10", "017"],
     UINT: ["0u", "1u", "31u", "2147483648u", "4294967295u", "65535u", "0x80000000", "0xffffffff", "037777777777"],
-    LONG: ["0L", "3L", "4294967296L", "9223372036854775807L", "(-9223372036854775807L - 1)", "(-4294967297L)", "63L", "0x100000000", "2147483648"],
-    ULONG: ["1UL", "9223372036854775808UL", "18446744073709551615UL", "4294967295UL", "64UL", "0xffffffffffffffff", "0x8000000000000000"],
+    LONG: ["0L", "3L", "4294967296L", "9223372036854775807L", "(-9223372036854775807L - 1)", "(-4294967297L)", "63L", "0x100000000", "2147483648", "7ll", "8LL"],
+    ULONG: ["1UL", "9223372036854775808UL", "18446744073709551615UL", "4294967295UL", "64UL", "0xffffffffffffffff", "0x8000000000000000", "0ull", "1ULL", "0x10ull", "5llu", "3uLL", "2lu", "6LLU"],
 }
 CASTS = [CHAR, UCHAR, SHORT, USHORT, INT, UINT, LONG, ULONG, BOOL]
 BIN = ["+", "-", "*", "/", "%", "&", "|", "^", "<<", ">>", "<", "<=", ">", ">=", "==", "!=", "&&", "||"]
